@@ -287,9 +287,8 @@ func Drive(o DriveOpts) int {
 		cov["samples"] = []any{}
 	}
 	ev["coverage"] = cov
-	if ev["assumptions"] == nil {
-		ev["assumptions"] = []string{}
-	}
+	assumptions := append([]string{"the repository's code is exercised as built from /repo's working tree; claims cover the executions produced by this run only"}, p.Assumptions...)
+	ev["assumptions"] = assumptions
 	evDir := filepath.Join(o.VerifDir, "evidence")
 	_ = os.MkdirAll(evDir, 0o755)
 	bs, _ := json.MarshalIndent(ev, "", " ")
@@ -588,6 +587,10 @@ func isGodiFn(fn string) bool {
 var genericSuffix = regexp.MustCompile(`\[[^\]]*\]`)
 
 func shortFn(fn string) string {
+	// drop type arguments (possibly nested brackets): everything from the first '[' to the last ']'
+	if i, j := strings.Index(fn, "["), strings.LastIndex(fn, "]"); i >= 0 && j > i {
+		fn = fn[:i] + fn[j+1:]
+	}
 	fn = genericSuffix.ReplaceAllString(fn, "")
 	fn = strings.TrimPrefix(fn, "github.com/junioryono/godi/v4")
 	fn = strings.TrimPrefix(fn, ".")
